@@ -35,7 +35,7 @@ VARIABLES feat, hist
 BoundsQuick == [core |-> <<2, 2, 1>>, names |-> <<2, 1, 1>>, annot |-> <<1, 2, 1>>,
                 rollback |-> <<1, 2, 1>>, foreign |-> <<1, 1, 1>>]
 BoundsThorough == [core |-> <<2, 3, 1>>, names |-> <<2, 2, 1>>, annot |-> <<2, 2, 1>>,
-                   rollback |-> <<2, 2, 1>>, foreign |-> <<2, 2, 1>>]
+                   rollback |-> <<1, 3, 1>>, foreign |-> <<1, 2, 1>>]
 Bnd(f) == IF Tier = "quick" THEN BoundsQuick[f] ELSE BoundsThorough[f]
 MaxG(f) == Bnd(f)[1]
 MaxN(f) == Bnd(f)[2]
